@@ -113,6 +113,13 @@ def execute(case, ctx):
         env = {"POMEROL_VERIF_DELAY_SEED": str(case["delay_seed"]), "POMEROL_VERIF_DELAY_MAX_US": str(case["delay_us"])}
     timeout = max(60.0, 100.0 * t1)
     answers, status, stderr = run_mpi(flavour, sc, P, threads=T, timeout=timeout, extra_env=env, wd=ctx.wd)
+    if status.startswith("timeout"):
+        # second attempt with a limit re-derived from the machine's present speed (a loaded machine must not look like a hang)
+        t0 = time.time()
+        ref2 = ctx.run(flavour, sc, timeout=600, fresh=True)
+        t1b = time.time() - t0
+        timeout = max(180.0, 300.0 * max(t1, t1b))
+        answers, status, stderr = run_mpi(flavour, sc, P, threads=T, timeout=timeout, extra_env=env, wd=ctx.wd)
 
     def fail(what, sig, extra=None):
         d = {"what": what, "P": P, "T": T, "env": env, "scenario": sc.text(), "flavour": flavour, "stderr": stderr[-2500:]}
